@@ -2,6 +2,9 @@
 mod ir;
 mod parser;
 mod peephole;
+
+#[cfg(feature = "verif")]
+pub use peephole::verif_peephole_optimize;
 mod ref_no_context;
 mod resolver;
 mod scanner;
